@@ -143,7 +143,7 @@ KeptBy(e) ==
     UNION {SeqRange(e.outs[i].items) : i \in DOMAIN e.outs} \cup SeqRange(e.vals) \cup SeqRange(e.recv)
 
 SrcKindOK(name, kinds) ==
-    CASE name \in IterOps \cup {"iter_fold", "iter_rfold", "iter_clone", "collect_iter"} \cup SearchOps -> kinds[1] = "iter"
+    CASE name \in IterOps \cup {"iter_fold", "iter_rfold", "iter_clone", "collect_iter", "collect_iter_take"} \cup SearchOps -> kinds[1] = "iter"
       [] name \in {"append", "prepend", "pop_back", "pop_front", "split", "remove", "swap_remove",
                    "unflatten", "into_array", "into_native", "into_tuple", "into_iter", "box_new",
                    "vec_from_arr", "bslice_from_arr"} -> kinds[1] = "arr"
@@ -202,7 +202,15 @@ Call(c) ==
                /\ LET f == Scoped(SeqRange(srcs[1]), ReplacedScope) IN
                   /\ owed' = OwedAfterOwe(f)
                   /\ life' = LifeAfterOwe(f)
-          ELSE IF IsCbOp(c.op) \/ IsCollectOp(c.op) \/ IsSerdeOp(c.op)
+          ELSE IF IsCollectOp(c.op)
+          THEN \* the source iterator is handed over by value: whatever it owns besides the items it yields (c.elems:
+               \* a value with a destructor inside the scripted source) is the library's to drop before it returns
+               /\ op' = NewOp(c, srcs, kinds)
+               /\ pool' = Restrict(pool, DOMAIN pool \ moved)
+               /\ LET f == Scoped(SeqRange(c.elems), OpScope) IN
+                  /\ owed' = OwedAfterOwe(f)
+                  /\ life' = LifeAfterOwe(f)
+          ELSE IF IsCbOp(c.op) \/ IsSerdeOp(c.op)
           THEN /\ op' = NewOp(c, srcs, kinds)
                /\ pool' = Restrict(pool, DOMAIN pool \ moved)
                /\ UNCHANGED <<life, owed>>
@@ -421,7 +429,7 @@ RetSearch(r) ==
     /\ AllLive(r.vals)
     /\ r.res = (CASE op.name = "iter_position" -> (IF op.stopped THEN op.k - 1 ELSE -1)
                   [] op.name = "iter_rposition" -> (IF op.stopped THEN op.n - op.k ELSE -1)
-                  [] op.name = "iter_any" -> (IF op.stopped THEN 1 ELSE 0)
+                  [] op.name \in {"iter_any", "iter_find_map"} -> (IF op.stopped THEN 1 ELSE 0)
                   [] op.name = "iter_all" -> (IF op.stopped THEN 0 ELSE 1)
                   [] OTHER -> -1)
     /\ loose' = loose \cup SeqRange(r.vals)
